@@ -34,6 +34,19 @@ CONSTANTS = {
         ("F32_SHIFT2", "arrow-row/src/fixed.rs", r"let s = self\.to_bits\(\) as i32;\s*let val = s \^ \(\(\(s >> [0-9]+\) as u32\) >> ([0-9]+)\) as i32;", "int"),
         ("F64_SHIFT2", "arrow-row/src/fixed.rs", r"let s = self\.to_bits\(\) as i64;\s*let val = s \^ \(\(\(s >> [0-9]+\) as u64\) >> ([0-9]+)\) as i64;", "int"),
         ("F16_SHIFT2", "arrow-row/src/fixed.rs", r"let s = self\.to_bits\(\) as i16;\s*let val = s \^ \(\(\(s >> [0-9]+\) as u16\) >> ([0-9]+)\) as i16;", "int"),
+        # interval encodings: every component is copied from its own signed `encode()`;
+        # the patterns insist on that shape (an edit such as `to_be_bytes()` loses the item)
+        ("IVDT_LEN", "arrow-row/src/fixed.rs", r"impl FixedLengthEncoding for IntervalDayTime \{\s*type Encoded = \[u8; (\d+)\];", "int"),
+        ("IVDT_DAYS_END", "arrow-row/src/fixed.rs", r"impl FixedLengthEncoding for IntervalDayTime \{\s*type Encoded = \[u8; 8\];\s*fn encode\(self\) -> Self::Encoded \{\s*let mut out = \[0_u8; 8\];\s*out\[\.\.(\d+)\]\.copy_from_slice\(&self\.days\.encode\(\)\);\s*out\[\d+\.\.\]\.copy_from_slice\(&self\.milliseconds\.encode\(\)\);\s*out\s*\}", "int"),
+        ("IVDT_MS_START", "arrow-row/src/fixed.rs", r"impl FixedLengthEncoding for IntervalDayTime \{\s*type Encoded = \[u8; 8\];\s*fn encode\(self\) -> Self::Encoded \{\s*let mut out = \[0_u8; 8\];\s*out\[\.\.\d+\]\.copy_from_slice\(&self\.days\.encode\(\)\);\s*out\[(\d+)\.\.\]\.copy_from_slice\(&self\.milliseconds\.encode\(\)\);\s*out\s*\}", "int"),
+        ("IVDT_DEC_DAYS_END", "arrow-row/src/fixed.rs", r"impl FixedLengthEncoding for IntervalDayTime \{.*?fn decode\(encoded: Self::Encoded\) -> Self \{\s*Self \{\s*days: i32::decode\(encoded\[\.\.(\d+)\]\.try_into\(\)\.unwrap\(\)\),\s*milliseconds: i32::decode\(encoded\[\d+\.\.\]\.try_into\(\)\.unwrap\(\)\),\s*\}\s*\}", "int"),
+        ("IVMDN_LEN", "arrow-row/src/fixed.rs", r"impl FixedLengthEncoding for IntervalMonthDayNano \{\s*type Encoded = \[u8; (\d+)\];", "int"),
+        ("IVMDN_MONTHS_END", "arrow-row/src/fixed.rs", r"impl FixedLengthEncoding for IntervalMonthDayNano \{\s*type Encoded = \[u8; 16\];\s*fn encode\(self\) -> Self::Encoded \{\s*let mut out = \[0_u8; 16\];\s*out\[\.\.(\d+)\]\.copy_from_slice\(&self\.months\.encode\(\)\);\s*out\[\d+\.\.\d+\]\.copy_from_slice\(&self\.days\.encode\(\)\);\s*out\[\d+\.\.\]\.copy_from_slice\(&self\.nanoseconds\.encode\(\)\);\s*out\s*\}", "int"),
+        ("IVMDN_DAYS_START", "arrow-row/src/fixed.rs", r"impl FixedLengthEncoding for IntervalMonthDayNano \{\s*type Encoded = \[u8; 16\];\s*fn encode\(self\) -> Self::Encoded \{\s*let mut out = \[0_u8; 16\];\s*out\[\.\.\d+\]\.copy_from_slice\(&self\.months\.encode\(\)\);\s*out\[(\d+)\.\.\d+\]\.copy_from_slice\(&self\.days\.encode\(\)\);\s*out\[\d+\.\.\]\.copy_from_slice\(&self\.nanoseconds\.encode\(\)\);\s*out\s*\}", "int"),
+        ("IVMDN_DAYS_END", "arrow-row/src/fixed.rs", r"impl FixedLengthEncoding for IntervalMonthDayNano \{\s*type Encoded = \[u8; 16\];\s*fn encode\(self\) -> Self::Encoded \{\s*let mut out = \[0_u8; 16\];\s*out\[\.\.\d+\]\.copy_from_slice\(&self\.months\.encode\(\)\);\s*out\[\d+\.\.(\d+)\]\.copy_from_slice\(&self\.days\.encode\(\)\);\s*out\[\d+\.\.\]\.copy_from_slice\(&self\.nanoseconds\.encode\(\)\);\s*out\s*\}", "int"),
+        ("IVMDN_NANOS_START", "arrow-row/src/fixed.rs", r"impl FixedLengthEncoding for IntervalMonthDayNano \{\s*type Encoded = \[u8; 16\];\s*fn encode\(self\) -> Self::Encoded \{\s*let mut out = \[0_u8; 16\];\s*out\[\.\.\d+\]\.copy_from_slice\(&self\.months\.encode\(\)\);\s*out\[\d+\.\.\d+\]\.copy_from_slice\(&self\.days\.encode\(\)\);\s*out\[(\d+)\.\.\]\.copy_from_slice\(&self\.nanoseconds\.encode\(\)\);\s*out\s*\}", "int"),
+        # the signed macro itself: `to_be_bytes` then the sign-bit toggle, for exactly these widths
+        ("SIGNED_WIDTHS", "arrow-row/src/fixed.rs", r"encode_signed!\((1), i8\);\s*encode_signed!\(2, i16\);\s*encode_signed!\(4, i32\);\s*encode_signed!\(8, i64\);\s*encode_signed!\(16, i128\);\s*encode_signed!\(32, i256\);", "int"),
     ],
 }
 FUNCTIONS = {}
